@@ -122,7 +122,7 @@ Proof.
   unfold or_empty_slot in Hstep. unfold bind at 1 in Hstep.
   destruct (handle_run h (st0 s)) as [(o & Eh & Hn)|Eh]; rewrite Eh in Hstep; [|destruct keep; discriminate].
   unfold bind at 1 in Hstep.
-  pose proof (so_join_spec cfg m o k' (st0 s) H0 eq_refl) as J.
+  pose proof (so_join_spec cfg m o k' (st0 s) H0) as J.
   destruct (so_join cfg o k' (st0 s)) as [[objs|e] s1]; [|destruct keep; discriminate].
   destruct J as (J1 & J2 & J3 & J4).
   unfold bind at 1, gets in Hstep. cbn [fst snd] in Hstep.
